@@ -865,7 +865,7 @@ func (g *bgen) refFreeTarget(root O, not string, tgts [][]string) []string {
 				v = x[i]
 			}
 		}
-		if !hasRefInside(v) {
+		if !hasRefInside(v) || g.refToLeafDefinition(root, v, not) {
 			cands = append(cands, o)
 		}
 	}
@@ -873,6 +873,22 @@ func (g *bgen) refFreeTarget(root O, not string, tgts [][]string) []string {
 		return nil
 	}
 	return cands[g.Int(0, len(cands)-1)]
+}
+
+// refToLeafDefinition: v is nothing but a $ref to a root definition (other than `not`) which holds no $ref itself,
+// so that pointing at v cannot close a cycle either.
+func (g *bgen) refToLeafDefinition(root O, v J, not string) bool {
+	m, ok := v.(map[string]interface{})
+	if !ok || len(m) != 1 {
+		return false
+	}
+	r, _ := m["$ref"].(string)
+	_, toks, err := ParseRef(r)
+	if err != nil || !strings.HasPrefix(r, "#/definitions/") || len(toks) != 2 || toks[1] == not {
+		return false
+	}
+	d, ok := Obj(root["definitions"])[toks[1]]
+	return ok && !hasRefInside(d)
 }
 
 func hasRefInside(v J) bool {
